@@ -273,6 +273,81 @@ Fixpoint first_reject (s : cst) (evs : list event) (i : nat) : option nat :=
   | e :: r => match step s e with Some s' => first_reject s' r (S i) | None => Some i end
   end.
 
+(* ---- progress (bounded liveness) ------------------------------------------------------------ *)
+(* The clock thread is deterministic up to its oracles: the event it performs next, given the
+   value of the next time read [t], the cause of the next wake-up [c] and the result of the task
+   being awakened [r].  [None]: the thread has returned, or a client holds the lock mid-operation. *)
+Definition next_clock_event (s : cst) (t : Q) (c : cause) (r : res) : option event :=
+  match c_pend s with
+  | NoPend =>
+      match norm_pc (c_q s) (c_pc s), c_q s with
+      | PLoop1, _ => Some (EWaitBegin None)
+      | PWaitEmpty, _ | PSleeping _, _ => Some (EWaitEnd c)
+      | PCheck, _ => Some (ETime t)
+      | PNotReady t0 true, h :: _ => Some (EWaitBegin (Some (beats2secs (c_map s) (itime h) - t0)))
+      | PNotReady _ false, _ => Some (ETime t)
+      | PLoop3 _, h :: _ => Some (EPop (itime h) (itask h))
+      | PAwake _ _ k, _ => Some (EAwakeEnd k r)
+      | PReadd _ t' k, _ => Some (EAdd t' k)
+      | _, _ => None
+      end
+  | _ => None
+  end.
+
+(* The fair continuation from a sleeping thread: the wait returns (cause c), the time read is t,
+   every pending task is due at t, every task returns a non-number, no client interferes:
+   the thread pops and awakens the whole queue in order and goes back to wait on an empty queue. *)
+Definition drain_events (c : cause) (t : Q) (l : list item) : list event :=
+  EWaitEnd c :: ETime t ::
+  flat_map (fun x => [EPop (itime x) (itask x); EAwakeEnd (itask x) ROther]) l ++ [EWaitBegin None].
+
+(* boolean comparison of events (times up to ==), for the correspondence of [drain_events] *)
+Definition oq_eqb (a b : option Q) : bool :=
+  match a, b with Some x, Some y => Qeq_bool x y | None, None => true | _, _ => false end.
+Definition ev_eqb (a b : event) : bool :=
+  match a, b with
+  | EAdd t k, EAdd t' k' | EClearPop t k, EClearPop t' k' | EPop t k, EPop t' k' => Qeq_bool t t' && Z.eqb k k'
+  | ENotify SSched, ENotify SSched | ENotify SClear, ENotify SClear | ENotify SStop, ENotify SStop
+  | ENotify STempo, ENotify STempo | EQClear, EQClear => true
+  | ETime t, ETime t' => Qeq_bool t t'
+  | EWaitBegin a', EWaitBegin b' => oq_eqb a' b'
+  | EWaitEnd CNotified, EWaitEnd CNotified | EWaitEnd CTimeout, EWaitEnd CTimeout => true
+  | EAwakeEnd k ROther, EAwakeEnd k' ROther | EAwakeEnd k RRaise, EAwakeEnd k' RRaise => Z.eqb k k'
+  | EAwakeEnd k (RDelta d), EAwakeEnd k' (RDelta d') => Z.eqb k k' && Qeq_bool d d'
+  | _, _ => false
+  end.
+(* the real trace, cut after [npre] events, continues exactly with the fair drain of the model's queue *)
+Definition drain_matches (k : kind) (m : tmap) (evs : list event) (npre : nat) (c : cause) (t : Q) : bool :=
+  match run (init k m) (firstn npre evs) with
+  | Some s => let d := drain_events c t (c_q s) in
+              list_eqb ev_eqb (firstn (length d) (skipn npre evs)) d
+  | None => false
+  end.
+
+(* every event of the clock thread in a trace is the one [next_clock_event] predicts from the state and
+   the oracle values the event carries (correspondence of [next_clock_event]) *)
+Definition oracle_t (e : event) : Q := match e with ETime t => t | _ => 0 end.
+Definition oracle_c (e : event) : cause := match e with EWaitEnd c => c | _ => CTimeout end.
+Definition oracle_r (e : event) : res := match e with EAwakeEnd _ r => r | _ => ROther end.
+Definition by_clock_thread (s : cst) (e : event) : bool :=
+  match e with
+  | ETime _ | EWaitBegin _ | EWaitEnd _ | EPop _ _ | EAwakeEnd _ _ => true
+  | EAdd _ _ => match c_pend s, norm_pc (c_q s) (c_pc s) with NoPend, PReadd _ _ _ => true | _, _ => false end
+  | _ => false
+  end.
+Fixpoint mon_next (s : cst) (evs : list event) : bool :=
+  match evs with
+  | [] => true
+  | e :: r =>
+      (if by_clock_thread s e
+       then match next_clock_event s (oracle_t e) (oracle_c e) (oracle_r e) with
+            | Some e' => ev_eqb e e'
+            | None => false
+            end
+       else true) &&
+      match step s e with Some s' => mon_next s' r | None => true end
+  end.
+
 (* ---- monitors over a trace (independent of [step]) --------------------------------------- *)
 (* never_early: every pop happens at a time read nb (converted by the map in force at the
    read) with scheduled time <= nb *)
